@@ -673,7 +673,34 @@ def evaluate_quality_metric(
         return se.evaluate(action_cost, state).constant_value() + metric_value
     elif quality_metric.is_minimize_sequential_plan_length():
         return metric_value + 1
-    elif (
+    else:
+        return evaluate_quality_metric_in_final_state(
+            simulator, quality_metric, next_state
+        )
+
+
+def evaluate_quality_metric_in_final_state(
+    simulator: SequentialSimulatorMixin,
+    quality_metric: "up.model.PlanQualityMetric",
+    state: "up.model.State",
+) -> Union[Fraction, int]:
+    """
+    Evaluates a metric whose value depends only on the state reached by the plan
+    (and not on the actions that lead to it), so it is defined also for the empty plan.
+
+    :param simulator: The simulator used to evaluate the metric.
+    :param quality_metric: The QualityMetric to evaluate.
+    :param state: The state reached by the plan; the initial state if the plan is empty.
+    :return: The evaluation of the metric in the given state.
+    :raises UPStateMissingFluentError: If an expression involves a fluent with an
+        undefined value in the state.
+    """
+    if not isinstance(simulator._problem, up.model.Problem):
+        raise NotImplementedError(
+            "Currently this method is implemented only for classical and numeric problems."
+        )
+    se = StateEvaluator(simulator._problem)
+    if (
         quality_metric.is_minimize_expression_on_final_state()
         or quality_metric.is_maximize_expression_on_final_state()
     ):
@@ -681,12 +708,12 @@ def evaluate_quality_metric(
             quality_metric,
             (MinimizeExpressionOnFinalState, MaximizeExpressionOnFinalState),
         )
-        return se.evaluate(quality_metric.expression, next_state).constant_value()
+        return se.evaluate(quality_metric.expression, state).constant_value()
     elif quality_metric.is_oversubscription():
         assert isinstance(quality_metric, Oversubscription)
         total_gain: Union[Fraction, int] = 0
         for goal, gain in quality_metric.goals.items():
-            if se.evaluate(goal, next_state).bool_constant_value():
+            if se.evaluate(goal, state).bool_constant_value():
                 total_gain += gain
         return total_gain
     else:
